@@ -1,0 +1,10 @@
+//go:build verif
+
+package detector
+
+// Verification harness hook (/verif, property C06, work package detrest): lets the harness run the
+// pattern-selection code on a given list of possible centres.  Compiled only with -tags verif.
+
+func (f *FinderPatternFinder) VerifSetPossibleCenters(cs []*FinderPattern) {
+	f.possibleCenters = cs
+}
